@@ -104,6 +104,48 @@ Section Search.
       apply F. exact ND.
   Qed.
 
+  (* The same with the hypotheses restricted to what the code can rely on: non-empty geometries.
+     TEST's helper (test_hits) answers false for empty geometries itself, so no assumption about the
+     library's answer on empty geometries is left. *)
+  Lemma search_exact_indexed c q : Wf c ->
+    (forall o, In o (spatial_list c) -> hits o q = true -> overlap64 (o_rect o) (qrect q)) ->
+    search Q qrect hits c q = filter (fun o => hits o q) (spatial_list c).
+  Proof.
+    intros W Hrect. unfold search, geo_search, spatial_list in *.
+    destruct (is_nan32 (r32_minx (rtree_rect (qrect q))) && _ && _ && _) eqn:G.
+    - cbn. symmetry. apply filter_nil. intros o Ho.
+      destruct (hits o q) eqn:Hh; auto. exfalso.
+      destruct (overlap_rounded _ _ (Hrect o Ho Hh)) as [_ Hn]. rewrite Hn in G. discriminate.
+    - apply filter_map_filter. intros e He Hh.
+      pose proof (proj1 (wf_spatial c W e) He) as (_ & _ & Hitem).
+      rewrite Hitem. cbn [fst rtree_item].
+      apply (overlap_rounded (o_rect (snd e)) (qrect q)). apply Hrect; auto.
+      apply in_map. exact He.
+  Qed.
+
+  Lemma search_equals_test c q : Wf c ->
+    (forall o, o_empty o = false -> hits o q = true -> overlap64 (o_rect o) (qrect q)) ->
+    (forall o, o_empty o = false -> hits o q = true -> o_spatial o = true) ->
+    (forall o, In o (search Q qrect hits c q) <-> In o (test_spec Q hits c q)) /\
+    NoDup (map o_id (search Q qrect hits c q)).
+  Proof.
+    intros W Hrect Hkind.
+    destruct (paths_agree c W) as (P1 & _ & P3 & _ & _ & _ & ND & _).
+    rewrite (search_exact_indexed c q W).
+    2:{ intros o Ho Hh. apply P3 in Ho. destruct Ho as (_ & _ & He). apply Hrect; auto. }
+    split.
+    - intros o. unfold test_spec, test_hits. rewrite !filter_In, P3, P1. split.
+      + intros [(G & _ & He) Hh]. rewrite He. auto.
+      + intros [G Hh]. destruct (o_empty o) eqn:He; [discriminate|].
+        pose proof (Hkind o He Hh). auto.
+    - assert (F : forall l, NoDup (map o_id l) -> NoDup (map o_id (filter (fun o => hits o q) l))).
+      { induction l as [|a l IH]; cbn; auto. intros N. inversion N; subst.
+        destruct (hits a q); cbn; auto. constructor; auto.
+        intros Hin. apply H1. apply in_map_iff in Hin. destruct Hin as [b [E Hb]].
+        apply filter_In in Hb. apply in_map_iff. exists b. tauto. }
+      apply F. exact ND.
+  Qed.
+
   (* ---- SPARSE only thins ---- *)
   Variable leaves : rect64 -> nat -> list rect64.
 
@@ -217,3 +259,20 @@ Proof.
   - vm_compute. left. reflexivity.
   - vm_compute. reflexivity.
 Qed.
+
+(* SPARSE with the quad split geoSparseInner performs *)
+Lemma sparse_sound_quads (Q : Type) (qrect : Q -> rect64) (hits : obj -> Q -> bool) c q n : Wf c ->
+  (forall o, In o (sparse_search Q qrect hits quad_leaves c q n) ->
+     hits o q = true /\ In o (spatial_list c)) /\
+  NoDup (map o_id (sparse_search Q qrect hits quad_leaves c q n)).
+Proof. apply sparse_sound. Qed.
+
+Lemma quad_leaves_length r n : length (quad_leaves r n) = Nat.pow 4 n.
+Proof.
+  revert r. induction n as [|n IH]; intros r; [reflexivity|].
+  cbn [quad_leaves quads flat_map]. rewrite !app_length, !IH. cbn [length]. cbn [Nat.pow]. lia.
+Qed.
+
+(* sparse = 0 leaves the query rectangle alone *)
+Lemma quad_leaves_0 r : quad_leaves r 0 = [r].
+Proof. reflexivity. Qed.
